@@ -58,13 +58,14 @@ def tables(scn):
     # records it ('nmax'; replay files written before the tables grew to 1024 rows have none and mean 256)
     n = int(scn.get('nmax', 256))
     g = rng.np_stream(scn['table_seed'], 'data')
-    raw_t = g.integers(0, 1 << 16, (n, MMAX))
-    raw_f = g.standard_normal((n, MMAX))
+    mm = int(scn.get('mmax', MMAX))          # recorded like 'nmax' (scenarios with traces of several hundred samples)
+    raw_t = g.integers(0, 1 << 16, (n, mm))
+    raw_f = g.standard_normal((n, mm))
     raw_d = g.integers(0, 1 << 16, (n, WMAX))
     if n < NMAX:
         pad = NMAX - n      # (nmax > NMAX: the tables simply have more rows)
-        raw_t = np.concatenate([raw_t, np.zeros((pad, MMAX), raw_t.dtype)])
-        raw_f = np.concatenate([raw_f, np.zeros((pad, MMAX))])
+        raw_t = np.concatenate([raw_t, np.zeros((pad, mm), raw_t.dtype)])
+        raw_f = np.concatenate([raw_f, np.zeros((pad, mm))])
         raw_d = np.concatenate([raw_d, np.zeros((pad, WMAX), raw_d.dtype)])
     return raw_t, raw_f, raw_d
 
@@ -208,6 +209,12 @@ def gen_history(seed, tier, prop, kinds_allowed):
     m = 64 if wide else _weighted(r, [(1, 1), (r.randint(2, 4), 4), (r.randint(5, 8), 2)])
     if not wide and numba_kind and kind != 'tbuild' and rng.stream(seed, 'mwide').random() < 0.07:
         m = rng.stream(seed, 'mwide2').randint(17, 35)     # more samples than worker threads: prange chunks hold several iterations
+    lt = rng.stream(seed, 'longtrace')
+    if kind not in ('tbuild', 'tstatic', 'tdpa') and regime == 'exact' and lt.random() < (0.06 if prop == 'C11' else 0.025):
+        # traces of several hundred samples: a kernel that walks the sample axis in blocks (256, 512) takes more than one block
+        m = lt.randint(257, 700)
+        n = min(n, lt.randint(40, 200))
+        scn['mmax'] = 1024
     # amplitudes up to the full range of the storage dtype: arithmetic done in the narrow trace dtype (a wrapped square, a truncated
     # sum) only shows on large sample values; exact_ok() below lowers the amplitude again where the sums would stop being exact
     xd = rng.stream(seed, 'xdtype')
